@@ -73,6 +73,7 @@ def export_one(spec, kind, mons, parse=True):
         if mons.layout:
             recs = mons.layout.drain()
             if recs:
+                res["compute_record"] = recs[-1]
                 res["labels"] = recs[-1]["labels"]
                 res["engine_options"] = recs[-1]["options"]
                 res["n_layers"] = len([L for L in recs[-1]["layers"] if L["items"]])
